@@ -105,6 +105,26 @@ def meta_menu(model, level):
         vals = list(cands[prop])
         if have:
             vals.append([])
+        # the definition of a NAMED entry edited in place (same name)
+        for i, ent in enumerate(have):
+            if not isinstance(ent, dict) or not ent.get('name'):
+                continue
+            new = S.clone(ent)
+            if ent.get('type') == 'check':
+                lookup, bound = ent['check'][0]
+                new['check'] = [[lookup, bound - 5]]
+            elif ent.get('condition'):
+                lookup, bound = ent['condition'][0]
+                new['condition'] = [[lookup, bound + 1]]
+            elif len(names) >= 2:
+                flds = [x.lstrip('-') for x in ent['fields']]
+                other = [n for n in names if n not in flds]
+                if not other:
+                    continue
+                new['fields'] = list(ent['fields']) + [other[0]]
+            else:
+                continue
+            vals.append(have[:i] + [new] + have[i + 1:])
         for v in vals:
             if v != have:
                 out.append((prop, v))
